@@ -88,7 +88,8 @@ class ClientRegistrationEndpoint:
             claims = jwt.decode(software_statement, key)
             # there is no need to validate claims
             return claims
-        except JoseError as exc:
+        except (JoseError, ValueError) as exc:
+            # ValueError: the key does not fit the algorithm of the statement
             raise InvalidSoftwareStatementError() from exc
 
     def generate_client_info(self):
